@@ -6,6 +6,7 @@ import (
 	"verif/sim/kit"
 
 	_ "verif/props/eckpt"
+	_ "verif/props/edet"
 	_ "verif/props/emem"
 	_ "verif/props/enet"
 	_ "verif/props/eobj"
